@@ -495,12 +495,20 @@ class Gen:
 
     def data_read(self, sc):
         r = self.r
+        if self.data_items and r.random() < 0.25:
+            # RESTORE, then read the first items again (same types)
+            n = min(len(self.data_items), r.randint(1, 3))
+            lvs = []
+            for ty in self.data_types[:n]:
+                lvs.append(self.pick_lvalue(sc, ty) or ['var', self.new_scalar(sc, ty)])
+            return [{'k': 'restore', 'label': None}, {'k': 'read', 'lvs': lvs}]
         n = r.randint(1, 3)
         lvs = []
         for _ in range(n):
             ty = r.choice(list(self.num_types) + (['$'] if self.p['strings'] else []))
             lv = self.pick_lvalue(sc, ty) or ['var', self.new_scalar(sc, ty)]
             lvs.append(lv)
+            self.data_types.append(ty)
             if ty == '$':
                 self.data_items.append(r.choice(('abc', '"x, y"', 'two words', '', '"q"')))
             elif ty in '%&':
@@ -766,7 +774,8 @@ class Gen:
         if x < 0.40 and self.p['input'] and sc.kind == 'main':
             return [self.input_stmt(sc)]
         if x < 0.44 and self.p['data'] and sc.kind == 'main':
-            return [self.data_read(sc)]
+            dr = self.data_read(sc)
+            return dr if isinstance(dr, list) else [dr]
         return [self.simple(sc)]
 
     def block(self, sc, n, depth):
